@@ -26,6 +26,7 @@ PowNums   == {"0.5", "2", "3"}
 PowInts   == {"1", "2"}
 PowMul    == {"**", "*"}
 TwoOnly   == {"2"}
+OddNums   == {"0.00001", "10000000000000000.0", "1.", ".5", "0.50", "00.5", "100000000000000000000"}
 ShapeOps  == {"+", "-", "*", "/", "**"}
 PairCmps  == {"<", ">=", "=="}
 LtOnly    == {"<"}
